@@ -20,7 +20,7 @@ import (
 
 func init() {
 	vc.Register(&vc.Check{ID: "C10", Level: "model_checking", Run: run, Replay: replay, QuickSec: 150, ThoroSec: 1200,
-		Rule:   "(1) full product CLA{00,10} x INS{even,odd} x 18 data lengths (block, 255/256 and 65280 boundaries) x 7 Le values x 4 algorithms x 3 initial counters: each command sent through the real NfcSession.DoAPDU with SM installed; the independent strict chip-side parser must authenticate it (CLA 0C, DO order [85|87][97]8E, tag by INS parity, indicator 01, DO97 iff Le and encoding Le, MAC over SSC||padded header||DOs) and decrypt it to the intended INS/P1/P2/data/Le. (2) explicit-state exploration of ALL histories up to depth 3 (thorough 4) over 6 command shapes x 5 chip answer kinds (9000+data, 9000, protected 6A82/6982/6282) for 4 algorithms x 3 initial counters incl. wrap; invariant in every state: terminal counter == chip counter, and the next exchange authenticates on both sides. Every protected status word SW1 in 61..6F/90..9F x SW2 x {data, none} followed by one more exchange. states = history nodes visited, transitions = exchanges; distinct_nontrivial = distinct (alg, ssc, command shape, outcome) of part 1 + distinct canonical state keys of part 2",
+		Rule:   "(1) full product CLA{00,10} x INS{even,odd} x 18 data lengths (block, 255/256 and 65280 boundaries) x 7 Le values x 4 algorithms x 3 initial counters: each command sent through the real NfcSession.DoAPDU with SM installed; the independent strict chip-side parser must authenticate it (CLA 0C, DO order [85|87][97]8E, tag by INS parity, indicator 01, DO97 iff Le and encoding Le, MAC over SSC||padded header||DOs) and decrypt it to the intended INS/P1/P2/data/Le. (2) explicit-state exploration of ALL histories up to depth 3 (thorough 4) over 6 command shapes x 5 chip answer kinds (9000+data, 9000, protected 6A82/6982/6282) for 4 algorithms x 3 initial counters incl. wrap; invariant in every state: terminal counter == chip counter, the next exchange authenticates on both sides, and every response delivered earlier still holds the bytes it was delivered with. Every protected status word SW1 in 61..6F/90..9F x SW2 x {data, none} followed by one more exchange. states = history nodes visited, transitions = exchanges; distinct_nontrivial = distinct (alg, ssc, command shape, outcome) of part 1 + distinct canonical state keys of part 2",
 		Assume: []string{"chip-side SM refcrypto.SM anchored to ICAO 9303-11 App. D.4", "the chip answers every authenticated command with a genuine protected response (faulty links are C03/C11)"}})
 }
 
@@ -137,7 +137,15 @@ func runStepsSSC(alg refcrypto.Alg, ssc []byte, steps []step) result {
 	}
 	nfc := iso7816.NewNfcSession(w)
 	nfc.SetSecureMessaging(lib)
+	// responses delivered to the caller so far, each with a private copy taken on delivery: a later exchange must
+	// not reach into data the caller already holds
+	var delivered, deliveredCopy [][]byte
 	for i, st := range steps {
+		for j := range delivered {
+			if !bytes.Equal(delivered[j], deliveredCopy[j]) {
+				fail("delivered-response-changed-by-later-exchange", fmt.Sprintf("the response data delivered at step %d was changed by a later exchange (before step %d)", j, i))
+			}
+		}
 		var data []byte
 		if st.C.DataLen > 0 {
 			data = pat(st.C.DataLen, byte(0x50+i))
@@ -175,6 +183,12 @@ func runStepsSSC(alg refcrypto.Alg, ssc []byte, steps []step) result {
 		if !bytes.Equal(lib.SSC(), chip.SSCBytes()) {
 			fail("ssc-diverged", fmt.Sprintf("after step %d (%+v, answer %s): terminal SSC %x, chip SSC %x", i, st.C, ansName(st.A), lib.SSC(), chip.SSCBytes()))
 			break
+		}
+		delivered, deliveredCopy = append(delivered, r.Data), append(deliveredCopy, bytes.Clone(r.Data))
+	}
+	for j := range delivered {
+		if !bytes.Equal(delivered[j], deliveredCopy[j]) {
+			fail("delivered-response-changed-by-later-exchange", fmt.Sprintf("the response data delivered at step %d was changed by a later exchange", j))
 		}
 	}
 	res.LibSSC, res.ChipSSC = lib.SSC(), chip.SSCBytes()
